@@ -1,6 +1,7 @@
 ------------------------------ MODULE SvsMC ------------------------------
 (* Model-checking front-end of Svs (C18): the finite alphabets of received packets.
-   cfg:  Packets <- PacketsFull | PacketsPlain | PacketsReplay | PacketsAgain                           *)
+   cfg:  Packets <- PacketsFull | PacketsPlain | PacketsReplay | PacketsAgain
+         PrePackets <- the same as Packets | PacketsPre                                                 *)
 EXTENDS Svs
 
 Ents(f, D, ord) ==
@@ -8,6 +9,7 @@ Ents(f, D, ord) ==
   IN  [i \in 1..Len(ids) |-> [id |-> ids[i], seq |-> f[ids[i]]]]
 Rev(s) == [i \in 1..Len(s) |-> s[Len(s) + 1 - i]]
 SV(es) == [k |-> "sv", es |-> es]
+SVL(es) == [k |-> "svl", es |-> es]
 
 PlainOver(S) == UNION { { SV(Ents(f, D, NodeOrder)) : f \in [D -> S] } : D \in SUBSET Nodes }
 \* exactly one entry (of at least two) lacks its sequence number; both encodings orders
@@ -31,14 +33,24 @@ DupOver(S) == UNION { { DupPk(t[1], t[2], t[3], <<>>) } \cup
 DupSome == UNION { (IF t[1] = Self \/ Len(NodeOrder) = 1 THEN { DupPk(t[1], t[2], t[3], <<>>) } ELSE {}) \cup
                    (IF Len(NodeOrder) > 1 THEN { DupPk(t[1], t[2], t[3], <<[id |-> NextNode(t[1]), seq |-> MaxSeq]>>) } ELSE {}) :
                    t \in { u \in Nodes \X {0, MaxSeq} \X {0, MaxSeq} : u[2] # u[3] } }
-Malformed == { [k |-> kk, es |-> <<>>] : kk \in {"empty", "garbage", "nowrapper", "badname", "unsigned", "seqlen0", "seqlen3"} }
+Malformed == { [k |-> kk, es |-> <<>>] : kk \in {"empty", "garbage", "nowrapper", "badname", "unsigned", "seqlen0", "seqlen3", "cut"} }
+\* plain non-empty vectors in a non-canonical encoding
+LenientOver(S) == UNION { { SVL(Ents(f, D, NodeOrder)) : f \in [D -> S] } : D \in (SUBSET Nodes) \ {{}} }
+
+\* ... about one peer (the last node) / about every node, all at MaxSeq (the own entry over-claims until MaxSeq is reached)
+LenientSome == { SVL(Ents([n \in D |-> MaxSeq], D, NodeOrder)) : D \in {{NodeOrder[Len(NodeOrder)]}, Nodes} }
 
 PacketsFull == PlainOver(0..MaxSeq) \cup NoSeqOver(0..MaxSeq) \cup NoIdOver(0..MaxSeq) \cup DupOver(0..MaxSeq) \cup Malformed
+               \cup LenientOver(0..MaxSeq)
 PacketsPlain == PlainOver(0..MaxSeq) \cup Malformed
 \* smaller alphabet for the replay graph: plain vectors, and damaged ones over {1, MaxSeq}
 PacketsReplay == PlainOver(0..MaxSeq) \cup NoSeqOver({MaxSeq}) \cup NoIdOver({MaxSeq}) \cup DupSome \cup Malformed
+                 \cup LenientSome
 \* for the runs with Remember = TRUE (the state space is multiplied by the square of the decodable packets)
 PacketsAgain == PlainOver(0..MaxSeq)
+\* for PublishThenRecv in the replay graph: what sync_handler does to the pending announcement depends on where it
+\* returns (undecodable / over-claiming: at once; accepted: after one of its two timer branches; callback or not)
+PacketsPre == PlainOver(0..MaxSeq) \cup Malformed
 \* the alphabet without duplicates (spec-level sensitivity runs for the named deviations)
 PacketsNoDup == PlainOver(0..MaxSeq) \cup NoSeqOver({MaxSeq}) \cup NoIdOver({MaxSeq}) \cup Malformed
 =============================================================================
